@@ -4,6 +4,20 @@ import json, os, sys
 HERE = os.path.dirname(os.path.dirname(os.path.abspath(__file__)))
 
 CHECKS = {
+ "C01": dict(
+    category="model_checking",
+    text=("Three layers, each decided against a TLA+ spec. Object level: for every class x payload shapes x selector/"
+          "scalar variants the real encoder and decoder are run and TLC validates the record against Framing.tla "
+          "(RoundTrip: same class, every member the encoding depends on, every payload container, identical "
+          "re-encoding). File level: sequences covering every class are written through the real File and read back "
+          "over compression levels x container sizes 1 B..4 MiB x restore points; TLC validates FileRoundTrip (all "
+          "delivered, in order, equal, then null/eof/!good). Pipeline level: ReadSession/WriteSession show for every "
+          "interleaving of small configurations that bytes and object order pass through unchanged, edge-replayed on "
+          "the real File."),
+    design_ref="DESIGN.md §6 C01",
+    note=("Field values are seeded samples; classes, shapes, selector ranges and configuration classes are enumerated. "
+          "Classes with a listed object-level finding are left out of the file-level sequences."),
+    technique="TLA+ framing/session specs + TLC validation of codec and file round-trip records + M1 edge replay"),
  "C02": dict(
     category="model_checking",
     text=("All 517 object images of the Vector-produced reference logs and the shipped .lobj samples (independent "
@@ -131,6 +145,18 @@ CHECKS = {
     design_ref="DESIGN.md §6 C13",
     note="good()/eof() compared only while a read session is open; leaks by LeakSanitizer reachability.",
     technique="TLA+ lifecycle spec + TLC + history replay (M3) under ASan/LSan + session ownership invariants"),
+ "C14": dict(
+    category="model_checking",
+    text=("Determinism is decomposed along the spec: (1) WriteSession's FileOutUnique shows for all interleavings that "
+          "the container sequence is a function of bytes and configuration (edge-replayed; one output hash over seeded "
+          "schedules at real scale); (2) every byte of the payload is explained: records of written files are validated "
+          "against Container.tla (payload = concatenation of the object encodings, padding zero); (3) the encodings "
+          "themselves do not depend on memory: the same seeded objects of every class/shape are encoded in processes "
+          "whose heap is pre-filled with different patterns, and whole files are written in fresh processes with "
+          "different patterns and twice with the same - all hashes must agree."),
+    design_ref="DESIGN.md §6 C14",
+    note="Stack memory is not poisoned; zlib assumed deterministic.",
+    technique="TLA+ session/container specs + TLC + poisoned-heap differential runs"),
  "C15": dict(
     category="model_checking",
     text=("UncompressedFileSeq.tla (one operator per method of UncompressedFile, UFOps) explored exhaustively by TLC "
